@@ -163,6 +163,17 @@ def gen_plan(rng, tier="quick", prop="C18"):
             st["chunks"] = {k: rng.choice([1, 1, 2, -1]) for k, _ in recipe["dims"]}
             if rng.random() < 0.3:
                 st["chunks"]["freq"] = rng.choice([2, 3])
+            # keep simulated computes small: at most ~8 blocks
+            sizes = dict((k, n) for k, n in recipe["dims"])
+            sizes["freq"] = recipe["nf"]
+
+            def nb(k):
+                v = st["chunks"][k]
+                return 1 if v == -1 else -(-sizes[k] // v)
+
+            while int(np.prod([nb(k) for k in st["chunks"]])) > 8:
+                k = max(sorted(st["chunks"]), key=nb)
+                st["chunks"][k] = -1 if nb(k) <= 2 else -(-sizes[k] // 2)
         steps.append(st)
         metas[slot] = {"kind": kind, "recipe": recipe, "backing": backing}
         if recipe["nd"] >= 2:
@@ -171,9 +182,9 @@ def gen_plan(rng, tier="quick", prop="C18"):
     add_new(0)
     length = rng.randint(3, 12 if tier == "quick" else 24)
     if prop == "C18":
-        weights = {"call": 7, "bad": 1, "edit": 3.5, "native": 1.5, "new": 1.2, "reader": 1.0, "writer": 0.3, "readfile": 0.3}
+        weights = {"call": 7, "bad": 1, "edit": 3.5, "native": 1.5, "new": 1.2, "reader": 1.0, "writer": 0.3, "readfile": 0.3, "construct": 0.6, "reconstruct": 0.25}
     else:
-        weights = {"call": 6, "bad": 1.5, "edit": 0.8, "native": 0.3, "new": 1.0, "reader": 2.0, "writer": 3.0, "readfile": 0.8}
+        weights = {"call": 6, "bad": 1.5, "edit": 0.8, "native": 0.3, "new": 1.0, "reader": 2.0, "writer": 3.0, "readfile": 0.8, "construct": 1.0, "reconstruct": 0.3}
     for _ in range(length):
         kind = rng.choices(list(weights), list(weights.values()))[0]
         wsl = [s for s, m in metas.items() if m["kind"] in ("ds", "da")]
@@ -235,6 +246,24 @@ def gen_plan(rng, tier="quick", prop="C18"):
                 st["fault"] = {"kind": rng.choice(["eio", "eio", "enospc", "torn", "close_err", "short"]), "k": rng.choice([1, 1, 2, 3, 5, 8, 13, 21, 34, 55, 89])}
             steps.append(st)
             files[fname] = fmt
+        elif kind == "construct":
+            nf = rng.randint(4, 9)
+            nd = rng.choice([4, 6, 8, 12])
+            fname = rng.choice(["jonswap", "pierson_moskowitz", "gaussian", "tma"])
+            fk = {"freq": [round(0.04 * 1.2 ** i, 5) for i in range(nf)], "fp": rng.choice([0.06, 0.08, 0.1]), "hs": rng.choice([0.5, 2.0, 4.5])}
+            if fname == "jonswap":
+                fk["gamma"] = rng.choice([1.0, 2.0, 3.3])
+            elif fname == "gaussian":
+                fk["gw"] = rng.choice([0.01, 0.02])
+            elif fname == "tma":
+                fk["dep"] = rng.choice([10.0, 40.0])
+            dk = {"dir": [float(x) for x in np.arange(0, 360, 360 / nd)], "dm": rng.choice([0.0, 45.0, 200.0, 350.0]), "dspr": rng.choice([10.0, 25.0, 40.0])}
+            steps.append({"op": "construct", "freq_name": fname, "dir_name": "cartwright", "fk": fk, "dk": dk, "defaults": rng.random() < 0.15})
+        elif kind == "reconstruct":
+            cands = [s for s in wsl if metas[s]["kind"] == "ds" and metas[s]["recipe"]["nd"] >= 3 and metas[s]["backing"] != "dask"
+                     and int(np.prod([n for _, n in metas[s]["recipe"]["dims"]] or [1])) <= 3 and metas[s]["recipe"]["nf"] * metas[s]["recipe"]["nd"] <= 64]
+            if cands:
+                steps.append({"op": "reconstruct", "slot": rng.choice(cands), "parts": rng.choice([1, 2]), "method": rng.choice(["ptm3", "ptm3", "ptm1"])})
         elif kind == "readfile" and files:
             fname = rng.choice(sorted(files))
             steps.append({"op": "readfile", "file": fname, "fmt": files[fname]})
@@ -259,6 +288,10 @@ def shape(plan):
             parts.append(f"edit{st['slot']}:{st['edit']['k']}:{st['edit'].get('how', st['edit'].get('f', ''))}")
         elif op == "native":
             parts.append(f"native:{st['shape']}")
+        elif op == "construct":
+            parts.append(f"construct:{st['freq_name']}:{len(st['fk']['freq'])}x{len(st['dk']['dir'])}:{st.get('defaults')}")
+        elif op == "reconstruct":
+            parts.append(f"reconstruct{st['slot']}:{st['parts']}:{st['method']}")
         elif op == "writer":
             parts.append(f"write{st['slot']}:{st['fmt']}:{st['file']}:{st.get('fault')}")
         else:
@@ -392,6 +425,33 @@ def call_reader(nat, fmt, fn):
 def native_array(shape, seed):
     rng = np.random.default_rng(seed)
     return D._bumps(rng, shape[0], shape[1], True, 1)[0].astype("float32")
+
+
+def construct_kwargs(store, st):
+    """Caller-owned keyword dictionaries (with caller-owned arrays inside) for construct_partition."""
+    fk = store.get("dict", {"__construct_f": st["fk"]})
+    dk = store.get("dict", {"__construct_d": st["dk"]})
+    if "freq" not in fk:
+        src = fk.pop("__construct_f")
+        fk.update({k: (np.asarray(v, dtype=float) if isinstance(v, list) else v) for k, v in src.items()})
+    if "dir" not in dk:
+        src = dk.pop("__construct_d")
+        dk.update({k: (np.asarray(v, dtype=float) if isinstance(v, list) else v) for k, v in src.items()})
+    return fk, dk
+
+
+def run_construct(st, fk, dk):
+    from wavespectra.construct import construct_partition
+
+    if st.get("defaults"):
+        return construct_partition(st["freq_name"], st["dir_name"], freq_kwargs=fk, dir_kwargs=dk), construct_partition.__defaults__
+    return construct_partition(st["freq_name"], st["dir_name"], fk, dk)
+
+
+def run_reconstruct(ds, st):
+    from wavespectra.construct import partition_and_reconstruct
+
+    return partition_and_reconstruct(ds, parts=st["parts"], partition_method=st["method"])
 
 
 def call_args(store, call):
@@ -543,6 +603,13 @@ def ref_handler(req):
             obj = F.thaw(req["obj"])
             aux = F.thaw(req["aux"])
             res = run_bad(obj, aux, req["bad"])
+        elif kind == "construct":
+            st = req["st"]
+            fk = {k: (np.asarray(v, dtype=float) if isinstance(v, list) else v) for k, v in st["fk"].items()}
+            dk = {k: (np.asarray(v, dtype=float) if isinstance(v, list) else v) for k, v in st["dk"].items()}
+            res = run_construct(st, fk, dk)
+        elif kind == "reconstruct":
+            res = run_reconstruct(F.thaw(req["obj"]), req["st"])
         elif kind == "native":
             from wavespectra.partition import specpart
 
@@ -641,11 +708,13 @@ def execute(arg):
             op = st["op"]
             sid = st.get("slot")
             sim.count("steps")
-            if op not in ("new", "mknative", "native", "readfile") and sid not in slots:
+            if op not in ("new", "mknative", "native", "readfile", "construct") and sid not in slots:
                 sim.count("steps_skipped")
                 continue
             # make sure argument objects exist before the snapshot (the caller owns them up front)
             args = call_args(store, st["call"]) if op == "call" else {}
+            if op == "construct":
+                fk, dk = construct_kwargs(store, st)
             before = snapshot_all() if prop == "C17" else None
             situation = "returned"
             if op == "new":
@@ -687,6 +756,16 @@ def execute(arg):
                 elif op == "bad":
                     req = {"kind": "bad", "bad": st["bad"]}
                     res_c = cmp.canon(run_bad(sl.obj, sl.aux, st["bad"]))
+                elif op == "construct":
+                    req = {"kind": "construct", "st": st}
+                    res_c = cmp.canon(run_construct(st, fk, dk))
+                    sim.count("construct_calls")
+                elif op == "reconstruct":
+                    if sl.kind != "ds":
+                        continue
+                    req = {"kind": "reconstruct", "st": st}
+                    res_c = cmp.canon(run_reconstruct(sl.obj, st))
+                    sim.count("reconstruct_calls")
                 elif op == "native":
                     from wavespectra.partition import specpart
 
@@ -739,7 +818,7 @@ def execute(arg):
                 check_purity(before, i, st, situation)
             # ---- C18 ---------------------------------------------------------------------
             if prop == "C18" and req is not None:
-                if op in ("call", "bad", "reader"):
+                if op in ("call", "bad", "reader", "reconstruct"):
                     req["obj"] = F.freeze(sl.obj)
                     req["aux"] = F.freeze(sl.aux) if sl.aux is not None else None
                     if op == "reader":
@@ -834,6 +913,10 @@ def _step_label(st):
         return "edit:" + st["edit"]["k"]
     if op == "native":
         return "specpart.partition"
+    if op == "construct":
+        return "construct_partition"
+    if op == "reconstruct":
+        return "partition_and_reconstruct"
     if op == "reader":
         return "reader:" + st.get("fn", "")
     if op == "writer":
